@@ -806,8 +806,10 @@ struct elements_iterator_t : boost::multi::random_accessable<elements_iterator_t
 	BOOST_MULTI_HD constexpr auto operator=(elements_iterator_t const& other) -> elements_iterator_t& {  // fixes (?) warning: definition of implicit copy assignment operator for 'elements_iterator_t<boost::multi::array<double, 3> *, boost::multi::layout_t<1>>' is deprecated because it has a user-declared copy constructor [-Wdeprecated-copy]
 		if(&other == this) {return *this;}  // for cert-oop54-cpp
 		base_ = other.base_;
-		xs_ = other.xs_;
+		l_ = other.l_;
 		n_ = other.n_;
+		xs_ = other.xs_;
+		ns_ = other.ns_;
 		return *this;
 	}
 
@@ -823,15 +825,13 @@ struct elements_iterator_t : boost::multi::random_accessable<elements_iterator_t
 	}
 
 	BOOST_MULTI_HD constexpr auto operator+=(difference_type n) -> elements_iterator_t& {
-		auto const nn = std::apply(xs_, ns_);
-		ns_ = xs_.from_linear(nn + n);
-		n_ += n;
+		n_ += n;  // the linear position is the source of truth; the index tuple wraps around at end()
+		ns_ = xs_.from_linear(n_);
 		return *this;
 	}
 	BOOST_MULTI_HD constexpr auto operator-=(difference_type n) -> elements_iterator_t& {
-		// auto const nn = std::apply(xs_, ns_);
-		// ns_ = xs_.from_linear(nn - n);
 		n_ -= n;
+		ns_ = xs_.from_linear(n_);
 		return *this;
 	}
 
@@ -858,8 +858,7 @@ struct elements_iterator_t : boost::multi::random_accessable<elements_iterator_t
 	BOOST_MULTI_HD constexpr auto operator->() const -> pointer   {return base_ + std::apply(l_, ns_) ;}
 	BOOST_MULTI_HD constexpr auto operator*()  const -> reference {return base_  [std::apply(l_, ns_)];}
 	BOOST_MULTI_HD constexpr auto operator[](difference_type const& n) const -> reference {
-		auto const nn = std::apply(xs_, ns_);
-		return base_[std::apply(l_, xs_.from_linear(nn + n))];
+		return base_[std::apply(l_, xs_.from_linear(n_ + n))];
 	}  // explicit here is necessary for nvcc/thrust
 
 	#if defined(__clang__)
